@@ -174,7 +174,7 @@ def conclude(prop, mod, args, shards, results, wall):
   for m, v in sorted(seen_known.items()):
     lines.append("KNOWN-FINDING: property=%s %s [%s; %d occurrence(s) this run; e.g. %s]" % (
         prop, known[m]["text"], m, vcounts.get(m, 1), v["text"][:160]))
-  replay_dir = os.path.join(ROOT, "replays", prop)
+  replay_dir = os.path.join(os.environ.get("VMON_REPLAYS", os.path.join(ROOT, "replays")), prop)
   for m, v in sorted(new_viol.items()):
     os.makedirs(replay_dir, exist_ok=True)
     fn = os.path.join(replay_dir, "%s_%s.json" % (
@@ -184,7 +184,7 @@ def conclude(prop, mod, args, shards, results, wall):
       json.dump({"property": prop, "mechanism": m, "text": v["text"],
                  "shard": v["shard"], "witness": v["witness"]}, f, indent=1)
     lines.append("VIOLATION property=%s replay=%s mechanism=%s count=%d :: %s" % (
-        prop, os.path.relpath(fn, ROOT), m, vcounts.get(m, 1), v["text"][:300]))
+        prop, os.path.relpath(fn, ROOT) if fn.startswith(ROOT) else fn, m, vcounts.get(m, 1), v["text"][:300]))
 
   # -- inconclusive conditions ------------------------------------------------
   reasons = list(problems)
